@@ -20,6 +20,7 @@ package stage
 //@   ensures  sound: forall(x, cov(cmp.Parts, x) ==> old(cov(cmp.Parts, x)) || (beg <= x && x < end))
 //@   ensures  retains-at: forall(m, 0, old(len(cmp.Parts)), forall(x, old(in(cmp.Parts[m], x)) ==> in(cmp.Parts[m], x) || (m+1 < len(cmp.Parts) && in(cmp.Parts[m+1], x))))
 //@   ensures  retains-acknowledged: forall(x, old(cov(cmp.Parts, x)) ==> cov(cmp.Parts, x))
+//@   modifies cmp.Parts, elems(cmp.Parts)
 //@   loop 0 invariant 0 <= i && i <= j && j == len(cmp.Parts) && k == j && replaced == nil
 //@   loop 0 invariant forall(m, 0, i, cmp.Parts[m].End <= beg)
 //@   loop 0 decreases j - i
@@ -83,3 +84,47 @@ package stage
 //@   on return assert one-record-per-call: called(fileutil.Move) ==> ncalls(sts.ReceiveLogger.Received) == 1
 //@   on return assert error-means-not-finalized: err != nil ==> !called((*Stage).toCache)
 //@   on return assert ok-means-finalized: err == nil ==> called((*Stage).toCache) && called(fileutil.Move) && targetPath == lastarg(fileutil.Move, 1)
+
+// T (data-structure invariant of companion records): a companion read from disk was written by this
+// package, every writer of which preserves wf (addCompanionPart/ensures:wf-preserved, proved).
+//@ func readLocalCompanion trusted
+//@   modifies nothing
+//@   ensures cmp != nil ==> wf(cmp.Parts) && fresh(cmp)
+
+//@ func newLocalCompanion
+//@   requires file != nil
+//@   ensures  new-hash-discards-ranges: err == nil ==> cmp != nil && cmp.Hash == file.Hash && cmp.Prev == file.Prev && cmp.Time == file.Time && wf(cmp.Parts)
+//@   modifies nothing
+//@   on return assert new-version-starts-empty: err == nil && !(lastret(readLocalCompanion, 0) != nil && old(lastret(readLocalCompanion, 0).Hash) == file.Hash) ==> len(cmp.Parts) == 0 && cmp.Size == file.Size && cmp.Name == file.Name && cmp.Renamed == file.Renamed
+//@   on return assert same-version-keeps-record: err == nil && lastret(readLocalCompanion, 0) != nil && lastret(readLocalCompanion, 0).Hash == file.Hash ==> cmp == lastret(readLocalCompanion, 0)
+//@   before call readLocalCompanion assert reads-own-companion: arg0 == path
+
+//@ func writeCompanion trusted
+//@   modifies nothing
+
+//@ func (*Stage).partialToFinal
+//@   ensures result != nil && fresh(result) && result.path == pathjoin(s.rootDir, file.Name) && result.name == file.Name && result.renamed == file.Renamed && result.size == file.Size && result.hash == file.Hash && result.prev == file.Prev
+//@   modifies nothing
+
+//@ func (*Stage).Receive
+//@   requires file != nil && forall(k, 0, len(file.Parts), file.Parts[k] != nil && 0 <= file.Parts[k].Beg && file.Parts[k].Beg < file.Parts[k].End)
+//@   before call os.OpenFile assert opens-the-partial: arg0 == pathjoin(s.rootDir, file.Name)+partExt
+//@   before call (*os.File).Seek assert writes-at-announced-offset: arg1 == file.Parts[0].Beg && arg2 == 0 && arg0 == lastret(os.OpenFile, 0)
+//@   before call io.Copy assert copies-into-the-partial: called((*os.File).Seek) && lastret((*os.File).Seek, 1) == nil && as(arg0, *os.File) == lastret(os.OpenFile, 0) && arg1 == reader
+//@   before call newLocalCompanion assert data-before-record: called(io.Copy) && lastret(io.Copy, 1) == nil && called((*os.File).Close)
+//@   before call newLocalCompanion assert record-under-lock: exclusive(lock)
+//@   before call addCompanionPart assert records-announced-range: arg1 == old(file.Parts[0].Beg) && arg2 == old(file.Parts[0].End) && arg0 == lastret(newLocalCompanion, 0) && lastret(newLocalCompanion, 1) == nil
+//@   before call writeCompanion assert record-under-lock: heldsince(lock, newLocalCompanion) && called(addCompanionPart) && arg1 == lastret(newLocalCompanion, 0) && arg0 == pathjoin(s.rootDir, file.Name)
+//@   before call isCompanionComplete assert completeness-of-written-record: called(writeCompanion) && lastret(writeCompanion, 0) == nil && arg0 == lastret(newLocalCompanion, 0)
+//@   before call os.Rename assert record-before-rename: called(isCompanionComplete) && lastret(isCompanionComplete, 0) && arg0 == pathjoin(s.rootDir, file.Name)+partExt && arg1 == pathjoin(s.rootDir, file.Name)+fullExt
+//@   before call os.Rename assert complete-duplicate-ignored: !(existing != nil && existing.state != stateFailed && existing.hash == file.Hash)
+//@   before call (*Stage).toCache(_, _, stateReceived) assert received-after-rename: called(os.Rename) && lastret(os.Rename, 0) == nil
+//@   before call (*Stage).toCache assert caches-received-or-failed: arg2 == stateReceived || (arg2 == stateFailed && called(os.Rename) && lastret(os.Rename, 0) != nil)
+//@   before go (*Stage).processQueue assert validates-what-was-received: called((*Stage).toCache) && lastarg((*Stage).toCache, 2) == stateReceived && arg1 == lastarg((*Stage).toCache, 1)
+//@   before call os.Remove(pathjoin(s.rootDir, file.Name)+compExt) assert companion-removed-only-when-finalized: existing != nil && existing.state >= stateFinalized && existing.hash == file.Hash
+//@   before call os.Remove(pathjoin(s.rootDir, file.Name)+partExt) assert duplicate-body-removed: existing != nil && existing.state != stateFailed && existing.hash == file.Hash && lastret(isCompanionComplete, 0)
+//@   before call os.Remove assert removes-only-own-files: arg0 == pathjoin(s.rootDir, file.Name)+compExt || arg0 == pathjoin(s.rootDir, file.Name)+partExt
+//@   on return assert one-part-only: len(old(file.Parts)) != 1 ==> err != nil && !called(os.OpenFile)
+//@   on return assert complete-is-queued: err == nil && called(os.Rename) ==> went((*Stage).processQueue)
+//@   on return assert copy-error-is-reported: called(io.Copy) && lastret(io.Copy, 1) != nil ==> err != nil && !called(writeCompanion)
+//@   on return assert record-error-is-reported: called(writeCompanion) && lastret(writeCompanion, 0) != nil ==> err != nil
